@@ -714,6 +714,14 @@ def violated_constraints(col):
         out.append(('rex', ['^$'], ['^$'], None))
         out.append(('rex', ['^a'], ['^a'], None))           # not tied to the end: re.match, not a full match
         out.append(('rex', ['b', '^é'], ['b', '^é'], None))
+        # kinds a string field cannot satisfy (a numeric bound, a sign): verification fails them for the type,
+        # detection must then flag the records too
+        out.append(('sign', 'positive', 'positive', None))
+        out.append(('sign', 'zero', 'zero', None))
+        out.append(('min', 1, 1, None))
+        out.append(('max', 1, 1, None))
+    if col.ttype == 'bool' and nn:
+        out.append(('sign', 'negative', 'negative', None))
     out.append(('no_duplicates', True, True, None))
     out.append(('max_nulls', 0, 0, None))
     if col.n0 > 1:
@@ -736,6 +744,9 @@ def _isnullcell(v):
 def check_detection(b, family, values, df, col, w, tmpdir, rnd):
     from tdda.constraints import verify_df, detect_df
     cands = violated_constraints(col)
+    if family.startswith('category'):
+        # ordering / sign questions on a categorical column raise (recorded under C02): not asked again here
+        cands = [c for c in cands if not (c[0] in ('min', 'max', 'sign') and col.ttype == 'string')]
     # single-kind runs + one combined run
     combos = [[c] for c in cands]
     seen = {}
@@ -821,6 +832,15 @@ def check_detection(b, family, values, df, col, w, tmpdir, rnd):
                     want_false = True
                 elif kind == 'max_nulls':
                     want_false = cell is None
+                elif col.ttype == 'string' and spec and (kind == 'sign' or (kind in ('min', 'max')
+                                                                            and not isinstance(spec[0][2], str))):
+                    # a kind the field's type cannot satisfy: every record with a value violates it ("every record
+                    # for a type failure"); null records are not judged here
+                    if cell is None:
+                        if isfalse:
+                            nfalse[i] += 1
+                        continue
+                    want_false = True
                 elif cell is None:
                     want_false = False
                 elif spec:
@@ -842,6 +862,15 @@ def check_detection(b, family, values, df, col, w, tmpdir, rnd):
                     nfalse[i] += 1
                 b.check('C06.record-flag.%s' % kind, isfalse == want_false, dict(w1, kind=kind, row=i),
                         'row %d value %r flag %r, documented meaning violated=%r' % (i, cell, flag, want_false))
+        if len(df):
+            for kind, sat in dres.fields['c'].items():
+                name = 'c_%s_ok' % SUFFIX[kind]
+                if sat is False and name in det:
+                    # a failing constraint is violated by some record: detection that flags none disagrees with the
+                    # verdict it reports
+                    b.check('C06.failing-constraint-flags-some-record',
+                            any((f is False) or (isinstance(f, (bool, np.bool_)) and not bool(f)) for f in det[name].tolist()),
+                            dict(w1, kind=kind), 'no record flagged for the failing %s constraint' % kind)
         if 'n_failures' in det:
             nf = det['n_failures'].tolist()
             only_checked = all((k not in ('min_length', 'max_length', 'rex') or col.ttype == 'string')
